@@ -8,6 +8,7 @@ normal and endgame mode (endgame is on from the start for torrents of <= 5 piece
 completion phase (Q:p) with one honest unchoking peer."""
 import os
 import random
+import re
 
 BLOCK = 16384
 
@@ -223,6 +224,33 @@ def parse_trace(out):
     return ev, done, amb, err
 
 
+def classify_stuck(out):
+    """Which mechanism left the completion phase stuck, from the harness's private-state diagnostics of the
+    serving peer's connection (stuck=int<0|1>.unch..dq..nq..miss..listed..untouched..unheld..invalid..).
+    Each known mechanism gets exactly its own class; anything else is no-completion-other."""
+    m = re.search(r" stuck=(\S+)", out)
+    if not m or m.group(1) == "noconn":
+        return "no-completion-other", "no diagnostics"
+    f = dict((k, int(x)) for k, x in re.findall(r"([a-z]+)(\d+)", m.group(1)))
+    g = lambda k: f.get(k, 0)
+    if g("int") == 1 and g("unch") == 1 and g("dq") == 0 and g("nq") == 1:
+        return "no-completion", ("update_interested (update_priorities) re-marked interest while the peer had the client "
+                                 "unchoked, without queueing the connection in the download choke queue: " + m.group(1))
+    if g("int") == 0 and g("unch") == 1 and g("miss") > 0 and g("listed") == g("miss"):
+        return "no-completion-have-listed", ("the peer announced (HAVE) only pieces that are already listed in the transfer "
+                                             "list; ChunkSelector::received_have_chunk ignores them, the client never "
+                                             "declares interest again: " + m.group(1))
+    if g("int") == 0 and g("unch") == 1 and g("untouched") > 0 and g("invalid") > 0:
+        return "no-completion-cancelled-pipe", ("a cancelled (invalidated) transfer still sits in the request queue and fills "
+                                                "the endgame pipe of 1; the client found nothing to request, dropped its "
+                                                "interest and nothing raises it again: " + m.group(1))
+    if g("unheld") > 0:
+        return "no-completion-choke-stalled", ("the peer's CHOKE arrived when only stalled requests were listed; "
+                                               "RequestList::choked returns early and keeps them, Block::insert then refuses "
+                                               "this peer for those blocks for ever: " + m.group(1))
+    return "no-completion-other", m.group(1)
+
+
 def oracle(case, out):
     v = []
     if out.startswith("CRASH") or out.startswith("ERR:internal"):
@@ -322,6 +350,7 @@ def oracle(case, out):
                     v.append(("duplicate-request", where + ": block already outstanding on this connection"))
             out_req[p].add((i, o))
     if done == "0":
-        v.append(("no-completion", "completion phase: an honest unchoking peer with every piece served every request for "
-                  "1500 s of virtual time, yet wanted pieces remain: " + out.partition(" || ")[2][:80]))
+        kl, why = classify_stuck(out)
+        v.append((kl, "completion phase: an honest unchoking peer with every piece served every request for 1500 s of "
+                  "virtual time, yet wanted pieces remain (%s): %s" % (why, out.partition(" || ")[2][:60])))
     return v
